@@ -195,7 +195,20 @@ class Scenario:
                             return None
                             yield  # pragma: no cover
 
-                    add_teardown_callback(lambda tid=tid: Closing(tid))
+                    if tid % 4 == 3:
+                        # ... or a generator-based coroutine (`@types.coroutine`): awaitable too, though neither a coroutine object
+                        # nor an instance of collections.abc.Awaitable
+                        import types
+
+                        @types.coroutine
+                        def closing(tid: int = tid) -> Any:
+                            sc.log("td-run", tid, form="generator-based-coroutine")
+                            return None
+                            yield  # pragma: no cover
+
+                        add_teardown_callback(closing)
+                    else:
+                        add_teardown_callback(lambda tid=tid: Closing(tid))
                 elif form == 1:
                     async def acb0(tid: int = tid) -> None:
                         sc.log("td-run", tid, form="async")
